@@ -53,7 +53,7 @@ Print Assumptions C03_macro_body.
 Theorem C03_words_stay_markup_vanishes : forall rd fuel toks st st' out,
   bcl py_tables (macros st) toks ->
   exec py_tables rd fuel (TSeq toks None []) st = Ok (st', ASeq out []) ->
-  ExecUnk.nst py_tables out = ExecUnk.nst py_tables (plains (rtoks py_tables toks)) /\
+  ExecUnk.nst py_tables out = ExecUnk.nst py_tables (plains (rtoks py_tables (macros st) toks)) /\
   unknowns st' = fold_left add_unknown (unames (macros st) toks) (unknowns st) /\
   macros st' = macros st.
 Proof.
